@@ -30,6 +30,7 @@ THEOREMS = [
     "Jinns.Minibatch.epoch_nodup_of_dvd",
     "Jinns.Minibatch.epoch_covers",
     "Jinns.Minibatch.holdsC09_model",
+    "Jinns.Minibatch.holdsC09Active_self",
 ]
 LEAN_MODULES = ["JinnsProofs.C09", "JinnsProofs.C09Holds"]
 RULE = ("cases = (generator kind, n, b, number of requests); every cursor owned by the generator is traced "
@@ -38,6 +39,10 @@ RULE = ("cases = (generator kind, n, b, number of requests); every cursor owned 
         "non-trivial = the history crosses at least one epoch boundary after the first request (a second reshuffle "
         "is observed) and the points of the store are pairwise distinct; distinct = distinct case dicts")
 ASSUMPTIONS = [
+    "generators configured for RAR (n_eff < n, kinds *_rar): the clauses are evaluated relative to the active points "
+    "(Holds.holdsC09Active, equal to Holds.C09 when every point is active: holdsC09Active_self); the C09 theorems are "
+    "stated for n_eff = n, the cursor with n_eff < n is covered by the theorems of JinnsProofs.C17 (draw_active_perm, "
+    "gen_getBatch_inv)",
     "jax.random.choice(replace=False) returns a permutation of its input (validated on every observed reshuffle: "
     "oracle_contract)",
     "a reshuffle is observed as 'the generator's PRNG key changed'",
@@ -81,6 +86,15 @@ def gen_cases(rng, tier):
                               "sizes": {k: list(v) for k, v in sizes.items()},
                               "requests": max(_req(*v) for v in sizes.values()),
                               "seed": rng.randrange(1 << 30)})
+    # generators configured for residual-adaptive refinement (fresh: no refinement step yet): the cursor works on
+    # the n_start ACTIVE points of a larger pre-allocated store, whatever the RAR schedule parameters are
+    lim_r = 5 if tier == "quick" else 8
+    for kind in ("ode_rar", "statio_rar"):
+        for ns in range(1, lim_r + 1):
+            for b in range(1, ns + 1):
+                cases.append({"kind": kind, "n": ns, "b": b, "extra": rng.randint(1, 4),
+                              "update_every": rng.randint(1, 4), "selected": rng.randint(1, 3),
+                              "requests": _req(ns, b), "seed": rng.randrange(1 << 30)})
     # the same histories under jax.jit: every non-stationary case, and the small scopes of the other kinds
     jitted = [{**c, "jit": True} for c in cases
               if c["kind"] == "nonstatio" or c["n"] <= (4 if tier == "quick" else 6)]
@@ -167,6 +181,19 @@ def _run_impl(case):
             "border": (lambda g: g.omega_border, None, lambda bt_: bt_.times_x_border_batch[:bb, 1:, :]),
         }
         bsizes = {"times": bt, "omega": bo, "border": bb}
+    elif kind in ("ode_rar", "statio_rar"):
+        ntot = n + case["extra"]
+        if kind == "ode_rar":
+            rar = {"start_iter": 0, "update_every": case["update_every"], "sample_size_times": 4,
+                   "selected_sample_size_times": case["selected"]}
+            g = DataGeneratorODE(key, ntot, -1.0, 3.0, b, rar_parameters=rar, nt_start=n)
+            cursors = {"times": (lambda g: g.times, lambda g: g.key, lambda bt: bt.temporal_batch)}
+        else:
+            rar = {"start_iter": 0, "update_every": case["update_every"], "sample_size_omega": 4,
+                   "selected_sample_size_omega": case["selected"]}
+            g = CubicMeshPDEStatio(key=key, n=ntot, nb=None, omega_batch_size=b, omega_border_batch_size=None,
+                                   dim=2, min_pts=(-1.0, 0.0), max_pts=(1.0, 2.0), rar_parameters=rar, n_start=n)
+            cursors = {"omega": (lambda g: g.omega, lambda g: g.key, lambda bt: bt.inside_batch)}
     elif kind == "obs":
         rs = np.random.RandomState(case["seed"] % (2**31))
         pin = jnp.asarray(np.arange(n, dtype=float)[:, None] * 2.0 + 1.0)
@@ -196,6 +223,10 @@ def _run_impl(case):
             store0 = list(range(len(store)))
         bcur = bsizes[name] if kind == "nonstatio" else b
         traces[name] = {"store0": store0, "b": bcur, "nEff": len(store0), "distinct": distinct, "trace": []}
+        if kind in ("ode_rar", "statio_rar"):
+            # the active points are the first n_start slots of the initial store
+            traces[name]["nEff"] = n
+            traces[name]["active"] = store0[:n]
         prev[name] = np.asarray(gs(g)).copy()
     # execution mode: eager, or one jitted get_batch reused for every request (a fresh generator's first
     # draw under jit exercises the int32 arithmetic of the initial cursor)
@@ -217,9 +248,9 @@ def _run_impl(case):
 
 
 def _cursor_of(g, kind, name):
-    if kind == "ode":
+    if kind in ("ode", "ode_rar"):
         return int(g.curr_time_idx)
-    if kind in ("statio", "statio_border", "nonstatio"):
+    if kind in ("statio", "statio_border", "nonstatio", "statio_rar"):
         return int({"omega": g.curr_omega_idx, "border": g.curr_omega_border_idx,
                     "times": getattr(g, "curr_time_idx", 0)}[name])
     if kind == "obs":
@@ -229,6 +260,7 @@ def _cursor_of(g, kind, name):
 
 def lean_request(case, obs):
     return [{"op": "c09", "store0": t["store0"], "b": t["b"], "nEff": t["nEff"],
+             **({"active": t["active"]} if "active" in t else {}),
              "trace": t["trace"]} for _, t in sorted(obs["traces"].items())]
 
 
